@@ -491,6 +491,9 @@ func runProperty(id string, p propSpec, tier string, seed uint64, keep bool) int
 	if ev != nil && len(fuzzNotes) > 0 {
 		ev["coverage"].(map[string]any)["native_fuzz"] = fuzzNotes
 	}
+	if ev != nil && len(knownLines) > 0 {
+		ev["coverage"].(map[string]any)["known_findings_reported"] = knownLines
+	}
 	if ev != nil {
 		b, _ := json.MarshalIndent(ev, "", " ")
 		os.MkdirAll(filepath.Join(root, "evidence"), 0o755)
